@@ -182,14 +182,15 @@ func (r *segReaderC56) Read(p []byte) (int, error) {
 func (r *segReaderC56) Close() error { return nil }
 
 // VerifC56_postFraming: how the POST body reaches the unpacker.
-//  part 0, segmented bodies: the valid query arrives in pieces of 1, 12 (= the DNS header), 20, 28 or
-//    29 bytes, with Content-Length known (29) or unknown (-1, chunked): it is forwarded complete.
-//  part 1, oversized bodies whose first maxPostMsgLength bytes are not a message of their own (limit
-//    lowered to 5, inside the DNS header, or 26, inside the question's type field; a cut inside the
-//    name ends in miekg/dns' ErrBuf, a package-level value the engine does not initialise, and a cut
-//    at 27/28 is accepted by miekg/dns as a message with a short question): rejected, whether the length is declared
-//    (Content-Length 29), unknown (-1, chunked) or unset (0). (Oversized bodies whose prefix happens
-//    to be a complete message are the known class C56-oversized-post-truncated, see VerifC56_post.)
+//
+//	part 0, segmented bodies: the valid query arrives in pieces of 1, 12 (= the DNS header), 20, 28 or
+//	  29 bytes, with Content-Length known (29) or unknown (-1, chunked): it is forwarded complete.
+//	part 1, oversized bodies whose first maxPostMsgLength bytes are not a message of their own (limit
+//	  lowered to 5, inside the DNS header, or 26, inside the question's type field; a cut inside the
+//	  name ends in miekg/dns' ErrBuf, a package-level value the engine does not initialise, and a cut
+//	  at 27/28 is accepted by miekg/dns as a message with a short question): rejected, whether the length is declared
+//	  (Content-Length 29), unknown (-1, chunked) or unset (0). (Oversized bodies whose prefix happens
+//	  to be a complete message are the known class C56-oversized-post-truncated, see VerifC56_post.)
 func VerifC56_postFraming() {
 	part := vrt.Choose("part", 2)
 	seg := []int{1, 12, 20, 28, 29}[vrt.Choose("segment", 5)]
